@@ -33,6 +33,8 @@ func init() {
 			"\t} else if s.slots[ix].seq != seq {\n\t\tif err := s.checkSize(slot); err != nil {\n\t\t\treturn false, err\n\t\t}\n", "\t} else if s.slots[ix].seq != seq {\n", "C20-R2"},
 		mutant{"duplicate overwrites the stored slot", "sequenced_slots.go", "\t\ts.slots[ix] = newSlot\n\t\treturn true, nil\n\t}\n\n\treturn false, nil", "\t\ts.slots[ix] = newSlot\n\t\treturn true, nil\n\t}\n\n\ts.slots[ix] = newSlot\n\treturn false, nil", "C20-R2"},
 		mutant{"offsetter reset while slots remain", "slot_sequencer.go", "\t\tif s.container.Size() == 0 {\n\t\t\ts.offsetter.Reset()\n\t\t}", "\t\tif s.container.Size() <= 1 {\n\t\t\ts.offsetter.Reset()\n\t\t}", "C20-R3"},
+		mutant{"offsetter bound applied to the index before it is shifted", "slot_offsetter.go",
+			"\tslot.Index += s.tree.Sum()\n\tif slot.Index >= s.tree.Size() {", "\tif slot.Index >= s.tree.Size() {\n\t\treturn Slot{}, ErrNoSpaceLeftForSlot\n\t}\n\tslot.Index += s.tree.Sum()\n\tif false {", "C20-R3"},
 		mutant{"Reset skips the offsetter once the container is empty", "slot_sequencer.go",
 			"\ts.offsetter.Reset()\n\ts.container.Reset()\n\ts.bytes = 0", "\ts.container.Reset()\n\tif s.container.Size() > 0 {\n\t\ts.offsetter.Reset()\n\t}\n\ts.bytes = 0", "C20-R1"},
 		mutant{"tree reset clears a power-of-two prefix only", "util/fenwick_tree.go",
@@ -434,10 +436,27 @@ func runC20(c *Ctx) {
 				}
 			}
 		})
-		isShifted := func(v ssa.Value) bool {
-			if isIndexOf(v) {
-				return true
+		var indexStores []ssa.Instruction
+		eachInstr(add, func(in ssa.Instruction) {
+			if st, ok := in.(*ssa.Store); ok {
+				if fv, _ := fieldAddrOf(st.Addr); fv == indexF {
+					indexStores = append(indexStores, in)
+				}
 			}
+		})
+		isShifted := func(v ssa.Value) bool {
+			// the index read back after it was shifted ...
+			if isIndexOf(v) {
+				if ld, ok := stripConv(v).(ssa.Instruction); ok {
+					for _, st := range indexStores {
+						if dominatesInstr(st, ld) {
+							return true
+						}
+					}
+				}
+				return false
+			}
+			// ... or the shifted value itself
 			for _, sv := range shiftedVals {
 				if stripConv(v) == sv {
 					return true
